@@ -545,4 +545,20 @@ def _detached_builder(builder: LanguageContextBuilder) -> LanguageContextBuilder
     detached._target_language_name = builder._target_language_name
     detached._target_language_config = copy.deepcopy(builder._target_language_config)
     detached._ln_loader._config = copy.deepcopy(builder.config)
+    _strip_default_markers(detached._ln_loader._config.sections())
     return detached
+
+
+def _strip_default_markers(mapping: typing.Dict[str, typing.Any]) -> None:
+    """
+    Replaces, in place and at every depth, each :class:`nunavut.DefaultValue` marker by the plain value it wraps. The markers only
+    steer the merging of configuration sources inside a builder; what a :class:`LanguageContext` reports (``get_option``, the
+    ``options`` seen by templates, ``--list-configuration``) are plain values.
+    """
+    from nunavut._utilities import DefaultValue  # pylint: disable=import-outside-toplevel
+
+    for key, value in mapping.items():
+        if isinstance(value, DefaultValue):
+            mapping[key] = value = value.value
+        if isinstance(value, dict):
+            _strip_default_markers(value)
